@@ -10,6 +10,39 @@ CORPUS = [["a\n", "b\n"], ["a # c\n", "b\n"], ["cat <<E\nx\nE\n", "b\n"], ["a |\
           ["a '\n' b\n", "c\n"], ["for i in 1\ndo a\ndone\n", "b\n"], ["case x in\na) b;;\nesac\n", "c\n"], ["  \n", "a\n"], ["a; # c\n", "b\n"], ["a\n", "b"]]
 
 
+TEMPLATES = ["cat %s\n", "cat %s %s\n", "cat %s %s %s\n", "cat %s; cat %s # c\n", "{ cat %s; cat 3%s; }\n", "cat %s | cat %s &&\n\x00  echo x\n", "cat %s &&\n\x00cat %s\n",
+             "if cat %s; then cat %s; fi\n", "x=$(cat %s\n\x00) y %s\n"]
+
+
+def heredoc_cmd(rnd):
+    """A command line with one to three here-documents (\\x00 in a template = the place where the pending bodies are read)."""
+    t = rnd.choice(TEMPLATES)
+    k = t.count("%s")
+    delims = rnd.sample(["A", "B", "E", "\u00e9", "EOF", "x1"], k)
+    ops, bodies = [], []
+    for d in delims:
+        q = rnd.choice(["", "", "'", "\\", '"', "mid"])
+        dash = rnd.random() < 0.3
+        w = {"": d, "'": "'%s'" % d, "\\": "\\" + d, '"': '"%s"' % d, "mid": d[0] + "''" + d[1:]}[q]
+        ops.append(("<<-" if dash else "<<") + w)
+        tab = "\t" if dash and rnd.random() < 0.7 else ""
+        lines = []
+        for _ in range(rnd.randint(0, 3)):
+            if q:
+                lines.append(rnd.choice(["x", "$y", "x\\", "$(echo", "`", "${z:-", " " + d, d + " ", "\\" + d]))
+            else:
+                lines.append(rnd.choice(["x", "$y", "y\\\n" + d, "\\\n" + d + " \\\n" + d, "$(echo\n" + d + "\n)", "`echo\n" + d + "\n`", "${z:-\n" + d + "\n}",
+                                         " " + d, d + " ", "\\" + d, "\\\\", "\u65e5\u672c\\\n" + d]))
+        bodies.append("".join(tab + l + "\n" for l in lines) + tab + d + "\n")
+    text = t % tuple(ops)
+    # bodies are read after the newline that follows their operators
+    if "\x00" in text:
+        head, tail = text.split("\x00")
+        n1 = head.count("<<")
+        return head + "".join(bodies[:n1]) + tail + "".join(bodies[n1:])
+    return text + "".join(bodies)
+
+
 class P:
     id = "C07"
     rule = ("sequences of 2-6 generated complete command lines (single-line, multi-line compound, here-documents incl. several per line, trailing comments, "
@@ -38,9 +71,23 @@ class P:
                 seq[-1] = seq[-1][:-1]
             cases.append(",".join(hx(t) for t in seq))
 
+        # several here-documents per command line, quoted and unquoted delimiters mixed in every order, bodies holding continued
+        # lines and multi-line expansions with lines that look like the delimiter
+        hn = 600 if tier == "quick" else 8000
+        hcases = []
+        for _ in range(hn):
+            seq = [heredoc_cmd(rnd) for _ in range(rnd.randint(1, 3))] + [rnd.choice(["echo next\n", "\n", "echo last", "a |\nb\n"])]
+            rnd.shuffle(seq)
+            seq = [t if t.endswith("\n") else t + "\n" for t in seq]
+            if "<<" not in seq[-1] and seq[-1].strip() and rnd.random() < 0.3:
+                seq[-1] = seq[-1][:-1]
+            hcases.append(",".join(hx(t) for t in seq))
+
         def impl_ok(c, o):
             return o.startswith(("ok", "skip"))
-        return [{"name": "streams", "harness": "stream", "driver": None, "cases": cases, "impl_ok": impl_ok,
+        return [{"name": "heredoc-streams", "harness": "stream", "driver": None, "cases": hcases, "impl_ok": impl_ok,
+                 "nontrivial": lambda c: True, "distribution": {"sequences": len(hcases)}},
+                {"name": "streams", "harness": "stream", "driver": None, "cases": cases, "impl_ok": impl_ok,
                  "nontrivial": lambda c: any(unhx(h).decode("utf-8", "replace").count("\n") > 1 for h in c.split(",")),
                  "distribution": {"sequences": len(cases)}}]
 
